@@ -114,6 +114,20 @@ impl PutQuery {
 
     /// Check if the query is either successfully done, or terminated with an error.
     pub fn check(&self, socket: &KrpcSocket) -> Result<bool, PutError> {
+        // A rejection by most nodes is an error whether or not it arrived last.
+        if let Some(most_common_error) = self.majority_nodes_rejected_put_mutable() {
+            let target = self.target;
+
+            debug!(
+                ?target,
+                ?most_common_error,
+                nodes_count = self.inflight_requests.len(),
+                "PutQuery for MutableItem was rejected by most nodes with 3xx code."
+            );
+
+            return Err(most_common_error)?;
+        }
+
         // And all queries got responses or timedout
         if self.is_done(socket) {
             let target = self.target;
@@ -136,17 +150,6 @@ impl PutQuery {
             debug!(?target, stored_at = ?self.stored_at, "PutQuery Done successfully");
 
             return Ok(true);
-        } else if let Some(most_common_error) = self.majority_nodes_rejected_put_mutable() {
-            let target = self.target;
-
-            debug!(
-                ?target,
-                ?most_common_error,
-                nodes_count = self.inflight_requests.len(),
-                "PutQuery for MutableItem was rejected by most nodes with 3xx code."
-            );
-
-            return Err(most_common_error)?;
         }
 
         Ok(false)
